@@ -136,7 +136,79 @@ func freeHullPolygon(t *rapid.T, ox int) [][]vkit.P2 {
 // of no side, of every side, of the first k sides in stored order, or of a drawn subset. The rings touch in points only
 // (the polygon stays valid), yet no vertex of the shell - and, with every side taken, no middle of a side either - is
 // clear of the other rings: which ring is the shell has to be found out from some other point of it.
+// manyTeethPolygon: the same for a convex lattice shell of 8 to 320 sides (side vectors are the primitive lattice
+// directions of an upper half-plane and their negatives, times 64, sorted by angle): a tooth at every vertex and at the
+// middle of every side, so that the search for a clear point of the shell has to go through every one of them first.
+func manyTeethPolygon(t *rapid.T, ox int) [][]vkit.P2 {
+	half := rapid.SampledFrom([]int{4, 6, 20, 64, 130, 150, 160}).Draw(t, "mtn")
+	type vec struct{ a, b int }
+	var dirs []vec
+	gcd := func(a, b int) int {
+		if a < 0 {
+			a = -a
+		}
+		if b < 0 {
+			b = -b
+		}
+		for b != 0 {
+			a, b = b, a%b
+		}
+		return a
+	}
+	for r := 1; len(dirs) < half && r < 40; r++ {
+		for a := -r; a <= r && len(dirs) < half; a++ {
+			for b := 0; b <= r && len(dirs) < half; b++ {
+				if (a == -r || a == r || b == r) && (b > 0 || a > 0) && gcd(a, b) == 1 {
+					dirs = append(dirs, vec{a, b})
+				}
+			}
+		}
+	}
+	all := append([]vec{}, dirs...)
+	for _, d := range dirs {
+		all = append(all, vec{-d.a, -d.b})
+	}
+	sort.Slice(all, func(i, j int) bool {
+		return math.Atan2(float64(all[i].b), float64(all[i].a)) < math.Atan2(float64(all[j].b), float64(all[j].a))
+	})
+	n := len(all)
+	vx, vy := make([]float64, n), make([]float64, n)
+	x, y := 0.0, 0.0
+	for i, d := range all {
+		vx[i], vy[i] = x, y
+		x, y = x+64*float64(d.a), y+64*float64(d.b)
+	}
+	minx := 0.0
+	for _, v := range vx {
+		minx = math.Min(minx, v)
+	}
+	shell := make([]vkit.P2, n)
+	for i := range shell {
+		shell[i] = vkit.MkP(float64(100000*ox)+vx[i]-minx, vy[i]-100000) // (far below and apart from the other members, which stay within 60 units of the x-axis)
+	}
+	rings := [][]vkit.P2{shell}
+	// teeth with lattice vertices: the apex, and two points k steps of the inward direction (dx, dy) further in, one
+	// step of its perpendicular to either side
+	ref := [][][]vkit.P2{{shell}}
+	tooth := func(ax, ay, dx, dy, k float64) {
+		if vkit.PIP(vkit.MkP(ax+k*dx, ay+k*dy), ref) != vkit.Inside {
+			dx, dy = -dx, -dy // (the interior is on the other side)
+		}
+		rings = append(rings, []vkit.P2{vkit.MkP(ax, ay), vkit.MkP(ax+k*dx+dy, ay+k*dy-dx), vkit.MkP(ax+k*dx-dy, ay+k*dy+dx)})
+	}
+	for i := 0; i < n; i++ {
+		in, out := all[(i+n-1)%n], all[i] // the sides that meet in vertex i; the interior is on the left of both
+		tooth(float64(shell[i][0]), float64(shell[i][1]), -float64(in.b)-float64(out.b), float64(in.a)+float64(out.a), 4)
+		j := (i + 1) % n
+		tooth((float64(shell[i][0])+float64(shell[j][0]))/2, (float64(shell[i][1])+float64(shell[j][1]))/2, -float64(out.b), float64(out.a), 2)
+	}
+	return rings
+}
+
 func teethPolygon(t *rapid.T, ox int) [][]vkit.P2 {
+	if rapid.IntRange(0, 3).Draw(t, "manyteeth") == 1 {
+		return manyTeethPolygon(t, ox)
+	}
 	W, H := 2*rapid.IntRange(12, 20).Draw(t, "tw"), 2*rapid.IntRange(12, 16).Draw(t, "th")
 	shell := [][2]int{{0, 0}, {W, 0}, {W, H}, {0, H}}
 	if rapid.Bool().Draw(t, "tl") {
@@ -191,11 +263,17 @@ func teethPolygon(t *rapid.T, ox int) [][]vkit.P2 {
 	return rings
 }
 
+// touchingDrawn is set by the generators of polygons whose rings touch in points: such a polygon is only the same
+// polygon under transformations that are exact in floating point (a hole's vertex that lies ON a side of the shell
+// lies beside it after a rounded scaling)
+var touchingDrawn bool
+
 func latticePolygon(t *rapid.T, ox int) [][]vkit.P2 {
 	if rapid.IntRange(0, 2).Draw(t, "freehull") == 0 {
 		return freeHullPolygon(t, ox)
 	}
 	if rapid.IntRange(0, 19).Draw(t, "teeth") == 11 {
+		touchingDrawn = true
 		return teethPolygon(t, ox)
 	}
 	W, H := rapid.IntRange(6, 30).Draw(t, "W"), rapid.IntRange(6, 20).Draw(t, "H")
@@ -204,6 +282,7 @@ func latticePolygon(t *rapid.T, ox int) [][]vkit.P2 {
 		// a rectangle with a small triangular hole AT a drawn subset of its corners (the hole's vertex is the shell's
 		// vertex: the rings touch in a point, the polygon stays valid) - with all four, every vertex of the shell lies on
 		// another ring
+		touchingDrawn = true
 		rings := [][]vkit.P2{{ip(ox, 0), ip(ox+W, 0), ip(ox+W, H), ip(ox, H)}}
 		all := rapid.Bool().Draw(t, "allcorners")
 		for k, cn := range [][4]int{{0, 0, 1, 1}, {W, 0, -1, 1}, {W, H, -1, -1}, {0, H, 1, -1}} {
@@ -224,6 +303,7 @@ func latticePolygon(t *rapid.T, ox int) [][]vkit.P2 {
 			// a hole may touch the shell in a point (the polygon stays valid): one vertex of the triangular hole lies on
 			// the lower edge y = 0, between two shell vertices
 			touch = 0
+			touchingDrawn = true
 		}
 		// lower edge y=0 from x=0..W, upper chain x-monotone from W back to 0 with heights in [H+1,H+m]
 		shell = append(shell, ip(ox, 0), ip(ox+W, 0))
@@ -304,6 +384,7 @@ func gen(t *rapid.T) Case {
 			c.AxisOff = rapid.IntRange(-9, 9).Draw(t, "axisoff")
 		}
 	case "poly":
+		touchingDrawn = false
 		nm := rapid.SampledFrom([]int{1, 1, 2, 3}).Draw(t, "nm")
 		c.AsMulti = nm > 1 || rapid.Bool().Draw(t, "asmulti")
 		c.Orbit = rapid.SampledFrom([]string{"any", "closed_opposite", "closed_any"}).Draw(t, "orbit")
@@ -357,6 +438,12 @@ func gen(t *rapid.T) Case {
 			c.Ty = rapid.OneOf(rapid.SampledFrom([]float64{0, 13, -100}), rapid.Float64Range(-1000, 1000)).Draw(t, "ty")
 			if c.S < 1e-3 || c.S > 1e5 {
 				c.Tx, c.Ty = 0, 0 // extreme scales are taken about the origin (a translation would swamp the shape)
+			}
+			if touchingDrawn {
+				// rings that touch: a power of two and a translation by whole steps of it, both exact
+				k := rapid.IntRange(-30, 30).Draw(t, "exactscale")
+				c.S = math.Ldexp(1, k)
+				c.Tx, c.Ty = c.S*float64(rapid.IntRange(-1000, 1000).Draw(t, "exacttx")), c.S*float64(rapid.IntRange(-1000, 1000).Draw(t, "exactty"))
 			}
 		}
 	case "line":
